@@ -42,6 +42,9 @@ pub struct HCfg {
     pub dirty_limit: Option<u64>,
     #[serde(default)]
     pub seed: u64,
+    /// Builder::ignore_corrupted: unreadable blobs are left where they are instead of being quarantined
+    #[serde(default)]
+    pub ignore_corrupted: bool,
 }
 fn d_ks() -> usize { 4 }
 fn d_bloom() -> String { "small".into() }
